@@ -6,6 +6,7 @@ From Coq Require Import NArith ZArith List Bool.
 From KT Require Import Gen.Generated Gen.Alphabet Model.Kmer Model.Show Model.Flt Model.Ops Model.Rows.
 From KT Require Import Proof.RevComp Proof.PosMap Proof.Oligo Proof.Sched Proof.SchedTrace Proof.Batch Proof.Merge Proof.MinConc Proof.MinSpec Proof.MinFast.
 From KT Require Proof.CountSched Proof.CountTrace Proof.ItemsSched Proof.ItemsTrace.
+From KT Require Import Proof.MappedBytes.
 Import ListNotations.
 Open Scope N_scope.
 
@@ -73,6 +74,19 @@ Definition s_obatch (k : nat) (norm : bool) (recs : list (list N)) : list N :=
   dec_nat (length recs) ++ [35] ++ join semi (map (s_oligo k norm) recs).
 Definition m_cbatch (S : Z) (recs : list (list N)) : list N := m_cgrfile S recs.
 Definition s_cbatch (S : Z) (recs : list (list N)) : list N := s_cgrfile S recs.
+
+(* ---------- C14: the write_at calls of the mapped writer, as (offset, length), in offset order: the layout of
+   Proof/MappedBytes.v with the header of the run and one row of the reserved length per record
+   (C14_every_row_has_the_reserved_length: that is the length of every real row) ---------- *)
+Definition show_layout (ws : list (nat * list N)) : list N :=
+  join comma (map (fun w => dec_nat (fst w) ++ colon ++ dec_nat (length (snd w)))
+                  (filter (fun w => negb (Nat.eqb (length (snd w)) 0)) ws)).
+Definition m_layout (k : nat) (hdr : bool) (delim : list N) (recs : list (list N)) : list N :=
+  let L := row_len k (length delim) in
+  show_layout (layout (if hdr then header_bytes k delim else []) L (map (fun _ => repeat 0 L) recs)).
+Definition s_layout (k : nat) (hdr : bool) (delim : list N) (recs : list (list N)) : list N :=
+  let L := (length (canon_list k) * 8 + (length (canon_list k) - 1) * length delim + 1)%nat in
+  show_layout (layout (if hdr then header_bytes_spec k delim else []) L (map (fun _ => repeat 0 L) recs)).
 
 (* ---------- C14: what the hook log must contain ---------- *)
 Definition windows (k : nat) (recs : list (list N)) : nat := fold_right (fun s a => (oligo_total k s + a)%nat) 0%nat recs.
